@@ -190,9 +190,11 @@ def _remove_unused_selections(scope, parent_selections, schema, alias_count, jou
 
     for selection in expression.selects:
         name = selection.alias_or_name
-        is_agg_selection = (implicit_group_by_all or not is_agg) and find_in_scope(
-            selection, exp.AggFunc
-        ) is not None
+        # an aggregate under a window (SUM(x) OVER (...)) does not collapse the rows of the query
+        is_agg_selection = (implicit_group_by_all or not is_agg) and any(
+            not agg.find_ancestor(exp.Window)
+            for agg in find_all_in_scope(selection, exp.AggFunc)
+        )
 
         if (
             select_all
